@@ -31,7 +31,7 @@ QHosts == {H1, H2, H3, Form(5, H1)}
 
 \* the j-th key's credentials of kind kd (all values mention j, to tell entries apart)
 D(j) == 48 + j
-Blank(k) == [key |-> k, username |-> E, password |-> E, auth |-> E, identitytoken |-> E, registrytoken |-> E]
+Blank(k) == [key |-> k, username |-> E, password |-> E, auth |-> E, identitytoken |-> E, registrytoken |-> E, email |-> E]
 Entry(k, kd, j) ==
   CASE kd = "up"     -> [Blank(k) EXCEPT !.username = <<117, D(j)>>, !.password = <<112, D(j)>>]
     [] kd = "auth"   -> [Blank(k) EXCEPT !.auth = B64Encode(<<98, D(j), 58, 115, 58, 120>>)]          \* bj:s:x
@@ -45,7 +45,8 @@ Entry(k, kd, j) ==
     [] kd = "reg"    -> [Blank(k) EXCEPT !.registrytoken = <<114, D(j)>>]
     [] kd = "bad"    -> [Blank(k) EXCEPT !.auth = <<33, 33, 33, 33>>]                                 \* !!!!
     [] kd = "nouser" -> [Blank(k) EXCEPT !.auth = B64Encode(<<58, 112, 119>>)]                        \* :pw
-    [] OTHER         -> Blank(k)                                                                      \* "empty"
+    [] kd = "email"  -> [Blank(k) EXCEPT !.email = <<101, D(j), 64, 120>>]      \* {"email": "ej@x"}: a field that carries no credentials
+    [] OTHER         -> Blank(k)                                                \* "empty": {} - the placeholder docker leaves next to a credsStore
 
 Beh(kind, tag) == [kind |-> kind, user |-> <<tag, 117>>, secret |-> <<tag, 115>>]
 Helpers(ka, kb) == [A |-> Beh(ka, 65), B |-> Beh(kb, 66)]
